@@ -51,10 +51,13 @@ def check(m, run):
     ev2(m, run)
     n_k = len(run.obs)
     _sd.ks2(m, run)
-    ks_ok = all(o.ok for o in run.obs[n_k:])
-    nk1(m, run)
     from .. import ops_common as _oc
     _oc.unit_range_rule(m, run, ('evaluate', 'evaluate_single', 'evaluate_list', 'derivatives', 'insert_knot', 'remove_knot'))
+    sel_ = [o for o in run.obs[n_k:] if o.rule.startswith(('KS2', 'RG2'))]
+    ks_ok = bool(sel_) and all(o.ok for o in sel_)
+    # every use of the normalisation flag is either a knot vector setter (KS2) or a [0, 1] range test (RG2, both halves): NK1 reads their spelling
+    with run.corroborating(ks_ok, 'KS2/RG2', rules=('NK1.normalize-guard',)):
+        nk1(m, run)
     run.floor('RG2.no-unit-range-test-for-un-normalised-shapes', 15, 'six methods x three shape classes')
     dom1(m, run)
     domain_getter(m, run)
